@@ -224,7 +224,8 @@ def run(ch, tier):
         s_.entry_sends, s_.exit_sends = quiet(s_.entry_sends), quiet(s_.exit_sends)
     for t_ in sp.trans:
         t_.sends = quiet(t_.sends)
-    sc = build_api(sp)
+    # v starts beyond the small-int cache, so that identity and equality of integers differ
+    sc = build_api(sp, preamble='v = 1000\nw = []')
     st = ch.s('scen')
     events = (sorted({t.event for t in sp.trans if t.event}) or ['ea']) + ['zz']
     library = {}        # scenario name -> list of primitive action lists (its given/when steps)
